@@ -351,9 +351,11 @@ def r7(ctx, F, rule, sfx):
     ok = len(fe) >= 1 and repr(fe[0].fargs[0]).replace(' ', '') == 'array{}' and repr(fe[0].fargs[1]) == 'len(cell.clipping_planes)'
     ctx.check(rule, 'one-list-per-plane' + sfx, ok, [repr(a)[:50] for a in fe[0].fargs] if fe else 'no vec![..; n]', 'vec![vec![]; self.clipping_planes.len()]', w, key_extra='lists')
     pushes = [e for e in ip.events if e.body is wfb and e.callee and e.callee.endswith('Vec::<T, A>::push') and e.in_loop]
-    nx = [x for x in next_events(ip, wfb) if x.in_loop]
-    if len(nx) != 1:
-        raise AnalysisIncomplete('with_faces: %d stream reads in the incidence loop' % len(nx))
+    nx_all = [x for x in next_events(ip, wfb) if x.in_loop]
+    ploops = {id(loop_of_event(ip, e)) for e in pushes}
+    nx = [x for x in nx_all if id(loop_of_event(ip, x)) in ploops]
+    if len(nx) != 1 or len(ploops) != 1:
+        raise AnalysisIncomplete('with_faces: %d stream reads in the incidence loop (%d loops push)' % (len(nx), len(ploops)))
     rec, li = loop_record_of(ip, nx[0])
     sh = stream_shape(I.frozen(rec['init'][li]))
     ok_stream = sh == ('pair', ('pos', 'enumerate'), ('elem', 'cell.vertices'))
@@ -382,15 +384,28 @@ def r7(ctx, F, rule, sfx):
     ctx.check(rule, 'each-dual-plane-once' + sfx, sorted(str(k) for k in ks) == ['0', '1', '2'], str(ks), 'dual[0], dual[1], dual[2] once each', w, key_extra='dualset')
     # sorting closure
     runs = [r for r in ip.closure_runs if any(e.callee in srt for e in r['events'])]
-    ok = len(runs) == 1
-    if ok:
+    sloop = [e for e in ip.events if e.body is wfb and e.callee in srt and e.in_loop]
+    ok = len(runs) + len(sloop) == 1
+    if ok and runs:
         r = runs[0]
         shs = stream_shape(r['stream'])
         e = [x for x in r['events'] if x.callee in srt][0]
         a1 = resolve_item(e.fargs[1], r['item'], shs, prefix=())
         a2 = resolve_item(e.fargs[2], r['item'], shs, prefix=())
         ok = shs[0] == 'pair' and shs[1][0] == 'pos' and shs[2][0] == 'elem' and a1 is not None and a1[0] == shs[2] and a2 is not None and a2[0][0] == 'pos'
-    ctx.check(rule, 'each-list-sorted-for-its-own-plane' + sfx, ok, '%d sorting closure(s)' % len(runs), 'lists.iter_mut().enumerate().for_each(|(i, l)| self.sort_face_vertices(l, i))', w, key_extra='sort')
+    elif ok:
+        # the same as an explicit `for (i, l) in lists.iter_mut().enumerate()`
+        e = sloop[0]
+        Ls = loop_of_event(ip, e)
+        nxs = [x for x in nx_all if loop_of_event(ip, x) is Ls]
+        ok = len(nxs) == 1 and not [g for g in e.guard if not (dtab.is_discr_eq(g) and '::next(' in repr(g))]
+        if ok:
+            rec_s, li_s = loop_record_of(ip, nxs[0])
+            shs = stream_shape(I.frozen(rec_s['init'][li_s]))
+            a1 = resolve_item(e.fargs[1], nxs[0].result, shs)
+            a2 = resolve_item(e.fargs[2], nxs[0].result, shs)
+            ok = shs[0] == 'pair' and shs[1][0] == 'pos' and shs[2][0] == 'elem' and a1 is not None and a1[0] == shs[2] and a2 is not None and a2[0][0] == 'pos'
+    ctx.check(rule, 'each-list-sorted-for-its-own-plane' + sfx, ok, '%d sorting closure(s), %d sorting loop(s)' % (len(runs), len(sloop)), 'lists.iter_mut().enumerate().for_each(|(i, l)| self.sort_face_vertices(l, i))', w, key_extra='sort')
     # face records
     fruns = [r for r in ip.closure_runs if r['adaptor'] == 'filter_map' and r['body'] is wfb]
     if len(fruns) != 1:
